@@ -24,10 +24,31 @@
 //!   Shapes of C15's own open findings are avoided by construction while they are listed
 //!   as `known` (the flags are derived from `known_findings.json`, so a finding that becomes
 //!   `fixed` is generated again automatically).
-//! * `open-finding-shapes` — the same search with nothing of C15's own avoided: every
-//!   failure there must carry a listed signature (counted), anything else is a violation.
+//! * `quoting-matrix` — one string of the G-yaml palette written by a program into one
+//!   position of a fixed document (block value, value inside a flow collection, block key,
+//!   key inside a flow mapping); same oracle. A failure is attributed to (position, known
+//!   quoting gap of the string) — `known_quoting_gap` is the executable trigger predicate of
+//!   the DOM emitter's open quoting findings — or to `unexplained:<class>` (a violation).
+//! * `open-finding-shapes` — the `reread` search with the shapes of C15's own findings
+//!   generated on purpose: every failure there must carry a listed signature (counted),
+//!   anything else is a violation.
 //!
-//! Structured replays: `{"input": {"yaml" | "yaml_hex", "program", "indent"}}`.
+//! Attribution (`check_case`): a failure is renamed to a finding's signature only when the
+//! finding's trigger predicate holds on the case itself — fails at `-I 0` and passes
+//! unchanged at `-I 2`; a string differs by a spliced `# comment` / one lost trailing line
+//! break and the input has a block scalar and a comment; a string differs by multiplied
+//! leading line breaks (or one added trailing break after two or more) and the input has a
+//! folded block scalar; the re-read says `unknown anchor` after a write.
+//!
+//! Documented, hence neither generated nor asserted: `--sort-keys` and navigation into a
+//! sub-tree whose aliases point outside it (streaming-path alias gap #1350,
+//! docs/compliance/yq/limitations.md); keys spelled `<<` (merge keys, even quoted); root
+//! scalar results (printed unwrapped); an output line `- plain #c: d` (a comment containing
+//! `: ` on a line without a key: docs/compliance/yaml/limitations.md "KeyWithoutValue").
+//!
+//! Structured replays: `{"input": {"yaml" | "yaml_hex", "program", "indent"}}` (a
+//! `quoting-matrix` replay also names its `matrix_signature`).
+//! Development aid: `VH_C15_SURVEY=<file>` logs every failure and keeps searching.
 use crate::cli;
 use crate::engine::*;
 use crate::gen::json::{j_eq, to_compact, J};
@@ -779,10 +800,11 @@ fn gen_case(u: &mut Src, av: Avoid) -> Generated {
             prog = WriteProg { text: ".".into(), tags: vec!["identity", "nav-would-leave-anchor-behind(#1350)"], is_write: false, nav_path: None };
         }
     }
+    // exhausted entropy (draw 0) gives the default width; 8 is the rejected value
     let mut indent = match u.below(20) {
-        0 => 8u8,
+        0 | 4..=6 => 2u8,
         1..=3 => 0,
-        4..=6 => 2,
+        19 => 8,
         n => (n % 8) as u8,
     };
     if av.i0_writes && indent == 0 && prog.is_write {
